@@ -131,8 +131,11 @@ def single_op_programs(rng):
                 progs.append(p)
     for kind in ['inv', 'solve', 'det', 'logdet', 'trace', 'qr', 'cholesky', 'eigh', 'lu', 'svd', 'qr_full']:
         for n in (2, 3):
-            progs.append({'inputs': [[n * n]], 'steps': [{'op': 'mkmat', 'a': 0, 'n': n, 'sym': kind in ('cholesky', 'eigh', 'logdet'), 'kind': kind},
-                                                         {'op': 'la', 'kind': kind, 'a': 1}], 'out': 2, 'out_shape': []})
+            sym = kind in ('cholesky', 'eigh', 'logdet')
+            perms = [list(range(n))] if sym else [list(range(n)), list(range(n))[::-1]] + ([[1, 2, 0], [2, 0, 1]] if n == 3 else [])
+            for perm in perms:
+                progs.append({'inputs': [[n * n]], 'steps': [{'op': 'mkmat', 'a': 0, 'n': n, 'sym': sym, 'kind': kind, 'perm': perm},
+                                                             {'op': 'la', 'kind': kind, 'a': 1}], 'out': 2, 'out_shape': []})
     # transposed (non-contiguous) data into reshape, sum over every axis of a matrix, views of views
     progs.append({'inputs': [[2, 3]], 'steps': [{'op': 'transpose', 'a': 0, 'how': 'T'}, {'op': 'reshape', 'a': 1, 'shape': [6], 'how': 'fn'}], 'out': 2, 'out_shape': [6]})
     for ax in (0, 1, -1, -2, None):
